@@ -205,7 +205,7 @@ func applyStream(cfg applyCfg, n int) {
 		a.ensure = chance(cfg.ensure)
 		g := genOpts{depth: 1 + rng.Intn(3), dupKeys: cfg.dup && chance(0.3), canonical: cfg.canonical || chance(0.3), esc: a.esc, ws: chance(0.4), lone: !cfg.canonical && chance(0.2), scalarRoot: cfg.scalar}
 		doc := []byte(genDoc(g))
-		pg := &patchGen{g: g, odd: cfg.odd, pTestOK: cfg.pTestOK, kinds: cfg.kinds}
+		pg := &patchGen{g: g, odd: cfg.odd, pTestOK: cfg.pTestOK, kinds: cfg.kinds, orig: doc}
 		nops := rng.Intn(9)
 		if chance(0.05) {
 			nops = 0
@@ -436,6 +436,19 @@ func equalStream(n int) {
 				b = []byte(respell(perturb(v), g))
 			} else {
 				b = a
+			}
+		case r < 0.7:
+			// objects that repeat a member name (the decoder keeps the last value): the same number of
+			// name/value pairs, the same or different sets of names
+			k1, k2 := spellStr(pick("x", "p", "a"), g), spellStr(pick("y", "q", "b"), g)
+			v1, v2 := genValue(g, 1), genValue(g, 1)
+			a = []byte("{" + k1 + ":" + v1 + "," + pick(k1+":"+v1, k1+":"+v2, k2+":"+v2) + "}")
+			b = []byte("{" + k1 + ":" + pick(v1, v2) + "," + pick(k2+":"+v2, k1+":"+v1, k1+":"+v2) + "}")
+			if chance(0.3) {
+				a, b = []byte(`{"w":[`+string(a)+`]}`), []byte(`{"w":[`+string(b)+`]}`)
+			}
+			if chance(0.5) {
+				a, b = b, a
 			}
 		case r < 0.8:
 			b = []byte(genDoc(g))
@@ -723,6 +736,11 @@ func createStream(n int) {
 			}
 			a = []byte("[" + strings.Join(as, ",") + "]")
 			b = []byte("[" + strings.Join(bs, ",") + "]")
+			if chance(0.15) {
+				// the elements are themselves arrays (of objects): not "arrays of objects", must be rejected
+				a = []byte("[" + string(a) + pick("", "", ",[]", ",{}") + "]")
+				b = []byte("[" + string(b) + pick("", "", ",[]", ",{}") + "]")
+			}
 		default:
 			g.scalarRoot = true
 			a = []byte(genDoc(g))
@@ -1335,6 +1353,10 @@ func cliStream(n int, bin string) {
 					ops = append(ops, pg.genOp(cur))
 				}
 				content := joinOps(ops)
+				if chance(0.12) {
+					// data after the patch array: white space is fine, anything else is not a patch document
+					content = append(content, pick(" ", "\n", "]", "}", " ]", "\n}", "[]", " x", ",", "null")...)
+				}
 				os.WriteFile(path, content, 0o644)
 				files = append(files, "file:"+hx(content))
 				if ob := runApply(doc, content, aopts{neg: true, esc: true}); ob.status == "ok" {
@@ -1446,10 +1468,13 @@ func mkPool() *pool {
 		p.optset = append(p.optset, aopts{neg: chance(0.7), esc: chance(0.5), allow: chance(0.2), limit: pick64(0, 0, 5, 12, 30, 60)})
 	}
 	for i := 0; i < 6; i++ {
-		g := genOpts{depth: 1 + rng.Intn(3), ws: chance(0.3), scalarRoot: chance(0.2)}
+		g := genOpts{depth: 1 + rng.Intn(3), ws: chance(0.3), scalarRoot: chance(0.2), dupKeys: chance(0.3)}
 		d := []byte(genDoc(g))
 		if chance(0.15) {
 			d = mutate(d)
+		}
+		if chance(0.15) {
+			d = []byte(pick(`{"a":1,"b":2,"c":3,"d":4,"a":5}`, `{"k":{"x":1,"y":2,"z":3,"x":4},"b":[1]}`, `[{"p":null,"q":[1,2],"r":0,"p":null}]`))
 		}
 		p.docs = append(p.docs, d)
 	}
